@@ -433,7 +433,11 @@ def check_property(prop, tier, seed):
             functions_ev.append(dict(r, unit=ur.unit, serves_property=serves))
         # an obligation = one contracted real function (all its VCs) or one prelude lemma of the unit
         failed_fns = set(fl['fn'] for fl in ur.failures)
+        # functions whose only failures are recorded known findings are listed separately, not counted
+        kf_fns = set(k.get('function') for k in known.get('findings', []) if k.get('kind') == 'obligation' and k.get('property') == prop and k.get('unit') == ur.unit)
         for r in ur.functions:
+            if r['key'] in kf_fns and r['key'] in failed_fns:
+                continue
             obligations += 1
             if r.get('verified') and r['key'] not in failed_fns:
                 discharged += 1
